@@ -1,6 +1,7 @@
 import SphericalVerif.Gen.Dispatch
 import SphericalVerif.Gen.HKern
 import SphericalVerif.Gen.FillKern
+import SphericalVerif.Gen.HornerKern
 import SphericalVerif.Model.Assemble
 import SphericalVerif.Model.W3j
 import SphericalVerif.Spec.Orderings
@@ -160,6 +161,16 @@ def step (line : String) : String :=
     let (z0, z1, _) := eulerPhases (bf r0) (bf r1) (bf r2) (bf r3)
     let st := runHF L P z1.re z1.im (bf dflt)
     cxs (evaluateHornerK (α := Float) st (parseCxArray f) z0 ⟨bf pre, bf pim⟩ s.toInt! ellMaxM.toNat! ⟨bf ire, bf iim⟩)
+  | "genevalH" :: L :: P :: s :: ellMaxM :: r0 :: r1 :: r2 :: r3 :: pre :: pim :: ire :: iim :: dflt :: f =>
+    -- the GENERATED `_evaluate_Horner` on the workspace left by the GENERATED `Wigner.H`; one row of weights, one rotor
+    let L := L.toNat!; let P := P.toNat!
+    let (z0, z1, z2) := eulerPhases (bf r0) (bf r1) (bf r2) (bf r3)
+    let st := genHState L P z1.re z1.im (bf dflt)
+    let fa := parseCxArray f
+    let st := fwrC (α := Float) st 3 0 ⟨bf ire, bf iim⟩
+    let st := Gen.u_evaluate_Horner (α := Float) (cxFun fa) 3 0 L P 0 ellMaxM.toInt! s.toInt! (fun i => frd (α := Float) st 0 i) z0 z2
+      1 (fa.size : Nat) (fun _ _ => ⟨bf pre, bf pim⟩) st
+    cxs (frdC (α := Float) st 3 0)
   | "rotH" :: L :: s :: ellMaxM :: r0 :: r1 :: r2 :: r3 :: dflt :: rest =>
     -- rest = (2*ellMaxM+1) complex powers zγ^m for m = -ellMaxM..ellMaxM, then the mode weights
     let L := L.toNat!; let eM := ellMaxM.toNat!
